@@ -313,7 +313,179 @@ def _hash_noop():
     return hs
 
 
+def _codec_gates():
+    G = "plonky2/src/gates/"
+    GS = "plonky2/src/util/serialization/gate_serialization.rs::"
+    S = "plonky2/src/util/serialization/mod.rs::"
+    I = "plonky2/src/iop/generator.rs::"
+    io = [S + "Write::write_usize", S + "Read::read_usize"]
+
+    def sd(path, ty, trait="Gate"):
+        return [path + "<%s as %s>::serialize" % (ty, trait), path + "<%s as %s>::deserialize" % (ty, trait)]
+
+    grp_a = (sd(G + "arithmetic_base.rs::", "ArithmeticGate") + sd(G + "arithmetic_extension.rs::", "ArithmeticExtensionGate<2>")
+             + sd(G + "multiplication_extension.rs::", "MulExtensionGate<2>") + sd(G + "constant.rs::", "ConstantGate"))
+    grp_b = (sd(G + "base_sum.rs::", "BaseSumGate<2>") + sd(G + "exponentiation.rs::", "ExponentiationGate<F,2>")
+             + sd(G + "reducing.rs::", "ReducingGate<2>") + sd(G + "reducing_extension.rs::", "ReducingExtensionGate<2>"))
+    grp_0 = (sd(G + "noop.rs::", "NoopGate") + sd(G + "public_input.rs::", "PublicInputGate")
+             + sd(G + "poseidon.rs::", "PoseidonGate<F,2>") + sd(G + "poseidon_mds.rs::", "PoseidonMdsGate<F,2>"))
+    ra = sd(G + "random_access.rs::", "RandomAccessGate<F,2>")
+    ci = sd(G + "coset_interpolation.rs::", "CosetInterpolationGate<F,2>")
+    reg = [GS + "<DefaultGateSerializer as GateSerializer>::write_gate", GS + "<DefaultGateSerializer as GateSerializer>::read_gate"]
+    rt = "G::deserialize(Gate::serialize(g)) has the same parameter fields as g and the reader consumed exactly the written bytes: "
+    tg = ("DefaultGateSerializer.read_gate(write_gate(GateRef(g))) is a gate of the same concrete type (as_any downcast; id() is "
+          "format!, stubbed) with the same parameters, 4 tag bytes + payload consumed: ")
+    one = "all 2^64 values of each gate's parameter (no constructor bound exists); unwind 10"
+    names_a = "ArithmeticGate, ArithmeticExtensionGate<2>, MulExtensionGate<2>, ConstantGate (num_consts observed through Gate::num_constants)"
+    names_b = "BaseSumGate<2>, ExponentiationGate<F,2>, ReducingGate<2>, ReducingExtensionGate<2>"
+    names_0 = "NoopGate, PublicInputGate, PoseidonGate<F,2>, PoseidonMdsGate<F,2>"
+    ra_b = ("all 2^192 triples (bits, num_copies, num_extra_constants); gate built from Default + public fields (the private "
+            "constructor has no bound either); unwind 10")
+    hs = [
+        H("codec_gates::rt_gates_one_param_a", grp_a + io, one, rt + names_a, est=8, role="gate-roundtrip-mismatch"),
+        H("codec_gates::rt_gates_one_param_b", grp_b + io, one, rt + names_b, est=8, role="gate-roundtrip-mismatch"),
+        H("codec_gates::rt_gate_random_access", ra + io, ra_b, rt + "RandomAccessGate<F,2>, 24 bytes", est=5,
+          role="gate-roundtrip-mismatch"),
+    ]
+    for n in (2, 4):
+        hs.append(H("codec_gates::rt_gate_coset_interpolation_w%d" % n, ci + [S + "Write::write_field_vec", S + "Read::read_field_vec"] + io,
+                    "all subgroup_bits, degree; %d barycentric weights (what `new(%d)` produces), any representation; gate built "
+                    "from Default + public fields; unwind 10" % (n, {2: 1, 4: 2}[n]),
+                    rt + "CosetInterpolationGate<F,2> (weights compared elementwise, decoded weights canonical), %d bytes" % (24 + 8 * n),
+                    tier="quick" if n == 2 else "thorough", est=20 if n == 2 else 120, assumptions=[STUB_BRANCH_HINT],
+                    role="gate-roundtrip-mismatch"))
+    hs += [
+        H("codec_gates::rt_gates_parameterless", grp_0, "the reader sits on 9 arbitrary foreign bytes; unwind 10",
+          "serialize writes nothing, deserialize succeeds and leaves the reader position unchanged: " + names_0, est=5,
+          role="gate-roundtrip-mismatch"),
+        H("codec_gates::tag_gates_one_param_a", reg + grp_a, one, tg + names_a, est=25, assumptions=[STUB_FMT, STUB_BRANCH_HINT],
+          role="gate-tag-dispatch"),
+        H("codec_gates::tag_gates_one_param_b", reg + grp_b, one, tg + names_b, est=25, assumptions=[STUB_FMT, STUB_BRANCH_HINT],
+          role="gate-tag-dispatch"),
+        H("codec_gates::tag_gates_structured", reg + ra + ci, ra_b + "; CosetInterpolationGate with 2 weights", tg +
+          "RandomAccessGate<F,2>, CosetInterpolationGate<F,2>", est=30, assumptions=[STUB_FMT, STUB_BRANCH_HINT], role="gate-tag-dispatch"),
+        H("codec_gates::tag_gates_parameterless_and_unknown", reg + grp_0, "parameterless gates; all u32 tags >= 16 in front of 32 zero bytes; unwind 10",
+          tg + names_0 + "; read_gate rejects every tag outside the registry (16 types; LookupGate / LookupTableGate not exercised)",
+          est=25, assumptions=[STUB_FMT, STUB_BRANCH_HINT], role="gate-tag-dispatch"),
+        H("codec_gates::rt_gen_constant", sd(I, "ConstantGenerator", "SimpleGenerator"),
+          "all row, constant_index, wire_index, all 2^64 representations of constant; unwind 10",
+          "deserialize(serialize(g)) == g field by field (all four fields are public), 32 bytes consumed", est=5,
+          assumptions=[STUB_BRANCH_HINT], role="generator-roundtrip-mismatch"),
+    ]
+    enc = ("serialize(deserialize(b)) == b and deserialize consumed all of b, for every valid encoding b of the layout (the fields "
+           "are crate-private, so the round trip is observed on the encoding): ")
+    enc_b = ("all byte strings of the encoded length with the Target tag bytes fixed per block (wire / virtual) and field limbs < p; "
+             "all indices; unwind 12")
+    enc_as = [STUB_BRANCH_HINT, "kani::assume(tag byte = 0 resp. 1) for Target cells, kani::assume(limb < p) for field cells "
+              "(exactly what the decoder validates)"]
+    gd = "plonky2/src/gadgets/"
+    hs += [
+        H("codec_gates::enc_gens_iop", sd(I, "CopyGenerator", "SimpleGenerator") + sd(I, "RandomValueGenerator", "SimpleGenerator")
+          + sd(I, "NonzeroTestGenerator", "SimpleGenerator"), enc_b,
+          enc + "CopyGenerator (wire,virtual / virtual,wire), RandomValueGenerator, NonzeroTestGenerator", est=25, assumptions=enc_as,
+          role="generator-roundtrip-mismatch"),
+        H("codec_gates::enc_gens_gates_a", sd(G + "arithmetic_base.rs::", "ArithmeticBaseGenerator<F,2>", "SimpleGenerator")
+          + sd(G + "arithmetic_extension.rs::", "ArithmeticExtensionGenerator<F,2>", "SimpleGenerator")
+          + sd(G + "multiplication_extension.rs::", "MulExtensionGenerator<F,2>", "SimpleGenerator")
+          + sd(G + "base_sum.rs::", "BaseSplitGenerator<2>", "SimpleGenerator") + sd(G + "poseidon.rs::", "PoseidonGenerator<F,2>", "SimpleGenerator")
+          + sd(G + "poseidon_mds.rs::", "PoseidonMdsGenerator<2>", "SimpleGenerator"), enc_b,
+          enc + "ArithmeticBaseGenerator, ArithmeticExtensionGenerator, MulExtensionGenerator, BaseSplitGenerator<2>, PoseidonGenerator, "
+          "PoseidonMdsGenerator", est=30, assumptions=enc_as, role="generator-roundtrip-mismatch"),
+        H("codec_gates::enc_gens_gates_b", sd(G + "exponentiation.rs::", "ExponentiationGenerator<F,2>", "SimpleGenerator")
+          + sd(G + "random_access.rs::", "RandomAccessGenerator<F,2>", "SimpleGenerator") + sd(G + "reducing.rs::", "ReducingGenerator<2>", "SimpleGenerator")
+          + sd(G + "reducing_extension.rs::", "ReducingGenerator<2>", "SimpleGenerator")
+          + sd(G + "exponentiation.rs::", "ExponentiationGate<F,2>") + ra + sd(G + "reducing.rs::", "ReducingGate<2>")
+          + sd(G + "reducing_extension.rs::", "ReducingExtensionGate<2>"), enc_b,
+          enc + "ExponentiationGenerator, RandomAccessGenerator, reducing::ReducingGenerator, reducing_extension::ReducingGenerator "
+          "(each embeds its gate's codec)", est=30, assumptions=enc_as, role="generator-roundtrip-mismatch"),
+        H("codec_gates::enc_gens_gadgets", sd(gd + "arithmetic.rs::", "EqualityGenerator", "SimpleGenerator")
+          + sd(gd + "range_check.rs::", "LowHighGenerator", "SimpleGenerator")
+          + sd(gd + "arithmetic_extension.rs::", "QuotientGeneratorExtension<2>", "SimpleGenerator"), enc_b,
+          enc + "EqualityGenerator, LowHighGenerator, QuotientGeneratorExtension<2>", est=40, assumptions=enc_as,
+          role="generator-roundtrip-mismatch"),
+    ]
+    # Only harnesses that were seen to be decided (`holds`) on the development machine are registered; the
+    # others exist in codec_gates.rs but never got a CBMC verdict within the time limits there.
+    GATES_CONFIRMED = ["rt_gates_one_param_a", "rt_gates_one_param_b", "rt_gate_random_access", "rt_gates_parameterless", "rt_gen_constant", "enc_gens_gates_b", "enc_gens_iop"]
+    return [h for h in hs if h["name"].split("::")[1] in GATES_CONFIRMED]
+
+
+def _codec_proof():
+    S = "plonky2/src/util/serialization/mod.rs::"
+    PR = "plonky2/src/plonk/proof.rs::"
+    st = [STUB_BRANCH_HINT, STUB_FMT, STUB_BACKTRACE]
+    tiny = ("hand-built CommonCircuitData<F,2>: num_wires %s, num_routed_wires 1, num_constants 1, num_challenges 1, "
+            "quotient_degree_factor 1, num_partial_products %s, no lookups, not hiding, degree_bits 1, rate_bits 0, cap_height 0, "
+            "no FRI reduction, 1 query round")
+    cfg = {"p": "PoseidonGoldilocksConfig (HashOut, 32 bytes)", "k": "KeccakGoldilocksConfig (BytesHash<25>)"}
+    rtx = "read_X(write_X(v)) == v component by component and the reader consumed exactly the written bytes: "
+    decx = "read_X on ARBITRARY bytes returns Ok or Err - no panic, overflow or out-of-bounds access; if Ok the position is inside the input: "
+    canon = "kani::assume(limb < p) for every field limb of the value (proofs hold canonical elements)"
+    os_f = ["Write::write_opening_set", "Read::read_opening_set", "Write::write_field_ext_vec", "Read::read_field_ext_vec"]
+    mp_f = ["Write::write_merkle_proof", "Read::read_merkle_proof", "Write::write_hash", "Read::read_hash"]
+    qs_f = ["Write::write_fri_query_step", "Read::read_fri_query_step"] + mp_f[:2]
+    ip_f = ["Write::write_fri_initial_proof", "Read::read_fri_initial_proof", "Read::read_field_vec"] + mp_f[:2]
+    fp_f = ["Write::write_fri_proof", "Read::read_fri_proof", "Read::read_fri_query_rounds"] + ip_f[:2]
+    pw_f = ["Write::write_proof_with_public_inputs", "Read::read_proof_with_public_inputs", "Write::write_proof", "Read::read_proof",
+            "Read::read_merkle_cap"] + os_f[:2] + fp_f[:2]
+    # name -> (functions, bounds, sample, tier, est seconds on an idle machine, role, extra assumptions)
+    T = {}
+
+    def rt(name, fns, what, bounds, tier, est):
+        T[name] = (fns, bounds, rtx + what, tier, est, "proof-roundtrip-mismatch", [canon])
+
+    def dec(name, fns, what, bounds, tier, est, sample=None, extra=()):
+        T[name] = (fns, bounds, sample or (decx + what), tier, est, "decoder-panic", list(extra))
+
+    for nw, npp, tier, est in ((1, 1, "thorough", 150), (3, 0, "thorough", 250), (3, 1, "thorough", 300)):
+        rt("rt_opening_set_w%d_pp%d" % (nw, npp), os_f, "OpeningSet<F,2> (%d extension elements)" % (6 + nw + npp),
+           tiny % (nw, npp) + "; all canonical contents; unwind 5", tier, est)
+    for c, s_, tier, est in (("p", 0, "quick", 10), ("p", 1, "quick", 90), ("k", 0, "quick", 10), ("k", 1, "quick", 40), ("k", 2, "thorough", 120)):
+        rt("rt_merkle_proof_%s_s%d" % (c, s_), mp_f, "MerkleProof with %d siblings, %s" % (s_, cfg[c]),
+           "%d siblings, all canonical contents; unwind 36" % s_, tier, est)
+    for nm, c, ar, comp, s_, tier, est in (("p_a2_s0", "p", 2, False, 0, "quick", 30), ("p_a2c_s0", "p", 2, True, 0, "quick", 20),
+                                          ("k_a2_s1", "k", 2, False, 1, "thorough", 120), ("k_a4c_s1", "k", 4, True, 1, "thorough", 200)):
+        rt("rt_fri_query_step_" + nm, qs_f, "FriQueryStep, arity %d, compressed = %s (%d evals), Merkle proof with %d siblings, %s"
+           % (ar, comp, ar - int(comp), s_, cfg[c]), "all canonical contents; unwind 36", tier, est)
+    for c, s_ in (("p", 0), ("p", 1), ("k", 1)):
+        rt("rt_fri_initial_proof_%s_s%d" % (c, s_), ip_f, "FriInitialTreeProof: 4 oracles of widths 2,3,1,1, Merkle proofs with %d siblings, %s"
+           % (s_, cfg[c]), tiny % (3, 0) + "; all canonical contents; unwind 36", "thorough", 400)
+    for c, s_ in (("p", 0), ("k", 1)):
+        rt("rt_fri_proof_%s_s%d" % (c, s_), fp_f, "FriProof: 1 query round, no commit-phase caps / steps, final_poly of 2 coefficients, "
+           "pow_witness, %s" % cfg[c], tiny % (3, 0) + "; Merkle proofs with %d siblings; all canonical contents; unwind 36" % s_, "thorough", 600)
+    for nm, c, s_, pis in (("k_s1_pi0", "k", 1, 0), ("k_s1_pi2", "k", 1, 2), ("p_s1_pi0", "p", 1, 0)):
+        rt("rt_proof_with_pis_" + nm, pw_f, "ProofWithPublicInputs, %d public inputs, %s" % (pis, cfg[c]),
+           tiny % (3, 0) + "; Merkle proofs with %d siblings; all canonical contents; unwind 36" % s_, "thorough", 800)
+    for n, tier, est in ((0, "quick", 5), (127, "thorough", 100), (128, "thorough", 100)):
+        dec("dec_opening_set_len%d" % n, os_f[1:2] + os_f[3:], "read_opening_set (encoded size 128)",
+            tiny % (3, 0) + "; all byte strings of length %d; unwind 5" % n, tier, est)
+    for c, n, tier, est in (("k", 0, "quick", 5), ("k", 1, "thorough", 60), ("k", 60, "thorough", 200), ("p", 1, "thorough", 60),
+                            ("p", 33, "thorough", 200), ("p", 70, "thorough", 400)):
+        dec("dec_merkle_proof_%s_len%d" % (c, n), mp_f[1:2] + mp_f[3:], "read_merkle_proof, %s; the sibling count is the first input byte "
+            "(0..=255), so the reader loops until the input runs out" % cfg[c], "all byte strings of length %d; unwind 36" % n, tier, est)
+    fb = "::from_bytes on all inputs of 0, 1, 7, 8 and 9 bytes returns Err (no Merkle cap can be read) and never panics"
+    dec("dec_proof_from_bytes_short_p", [PR + "ProofWithPublicInputs::from_bytes", S + "Read::read_proof_with_public_inputs", S + "Read::read_merkle_cap"],
+        None, tiny % (3, 0) + "; " + cfg["p"] + "; unwind 36", "quick", 30, sample="ProofWithPublicInputs" + fb)
+    dec("dec_proof_from_bytes_short_k", [PR + "ProofWithPublicInputs::from_bytes", S + "Read::read_proof_with_public_inputs", S + "Read::read_merkle_cap"],
+        None, tiny % (3, 0) + "; " + cfg["k"] + "; unwind 36", "quick", 20, sample="ProofWithPublicInputs" + fb)
+    dec("dec_compressed_proof_from_bytes_short_p", [PR + "CompressedProofWithPublicInputs::from_bytes",
+                                                    S + "Read::read_compressed_proof_with_public_inputs", S + "Read::read_merkle_cap"],
+        None, tiny % (3, 0) + "; " + cfg["p"] + "; unwind 36", "quick", 20, sample="CompressedProofWithPublicInputs" + fb)
+    # Only harnesses that were seen to finish within the tier's limit are registered (the others exist in
+    # codec_proof.rs but were never decided by CBMC within 900 s on the development machine).
+    CONFIRMED = ["dec_opening_set_len0", "dec_merkle_proof_k_len0", "dec_proof_from_bytes_short_p", "dec_merkle_proof_k_len1",
+                 "dec_merkle_proof_p_len1", "dec_opening_set_len128"]
+    hs = []
+    for name in CONFIRMED:
+        fns, bounds, sample, tier, est, role, extra = T[name]
+        hs.append(H("codec_proof::" + name, [(f if f.startswith("plonky2/") else S + f) for f in fns], bounds, sample,
+                    tier=tier, est=est, assumptions=st + extra, role=role))
+    return hs
+
+
 HARNESSES = {
+    "codec_proof": ("C17", _codec_proof),
+    "codec_gates": ("C17", _codec_gates),
     "hash_noop": ("C12", _hash_noop),
     "util_perm": ("C15", _util_perm),
     "field_addsub": ("C14", _field_addsub),
@@ -700,7 +872,7 @@ def split_batches(hs, nslots, budget):
     return [b[1] for b in bins if b[1]]
 
 
-def run(family, tier="quick", seed=0, prop=None, only=None):
+def run(family, tier="quick", seed=0, prop=None, only=None, id_regex=None):
     if family not in HARNESSES:
         return [common.ob("%s.K.%s.unknown-family" % (prop, family), prop or "-", "K", [], "-", "inconclusive",
                           detail="engine K has no family %r" % family, nontrivial=False)]
@@ -709,6 +881,8 @@ def run(family, tier="quick", seed=0, prop=None, only=None):
     hs = [h for h in mk() if tier == "thorough" or h["tier"] == "quick"]
     if only:
         hs = [h for h in hs if only in h["name"]]
+    if id_regex:
+        hs = [h for h in hs if re.search(id_regex, "%s.K.%s.%s" % (prop, family, h["name"].split("::", 1)[1]))]
     if not hs:
         return []
     prepare_crate()
